@@ -77,7 +77,10 @@ FnFrom(t, i, E, faithful) ==
     IN IF bad # {} THEN <<"fn:legal:char", out[Min(bad)], i>>
        ELSE IF \E j \in 1..Len(parts) : IsReserved(cs, parts[j]) THEN <<"fn:legal:reserved", i>>
        ELSE IF Len(out) > MaxLen THEN
-              <<IF st.fnk = "u" /\ ReservedAfterClip(ci, user, st.p, st.s) THEN "fn:bounded:reserved-prefix-after-clip" ELSE "fn:bounded:other", i>>
+              (* named root cause: exactly the over-long name of the reference algorithm, which clips before it
+                 puts the "_" in front of a reserved part; any other over-long name has another cause *)
+              <<IF st.fnk = "u" /\ ReservedAfterClip(ci, user, st.p, st.s) /\ out = st.p \o Fixed(ci, user, st.p, st.s) \o st.s
+                THEN "fn:bounded:reserved-prefix-after-clip" ELSE "fn:bounded:other", i>>
        ELSE IF low \in E THEN <<IF low # outl \/ ~faithful THEN "fn:caseunique:contextual-lower" ELSE "fn:caseunique", i>>
        ELSE IF faithful /\ t.predict = 1 /\ Transcribable(user) /\ ~(st.fnk = "u" /\ ReservedAfterClip(ci, user, st.p, st.s))
                /\ Predict(ci, st, user, E) # out THEN <<"fn:predicted", i>>
